@@ -72,10 +72,10 @@ func (l *verifC21Limit) Write(p []byte) (int, error) {
 }
 
 type verifC21DB struct {
-	Database // the other methods are not used by the arms under test
-	img      []byte
-	failAt   int // the store gives up after this many artifact bytes (< 0: never)
-	calls    int
+	Database    // the other methods are not used by the arms under test
+	img         []byte
+	failAt      int // the store gives up after this many artifact bytes (< 0: never)
+	calls       int
 	sawCompress []bool
 }
 
@@ -325,7 +325,7 @@ func verifC21Frame(out []byte) (msg, rest []byte, ok bool) {
 func verifC21ImageLen() int {
 	lens := []int{0, 2}
 	if verifTier() == 1 {
-		lens = []int{0, 1, 2, 3, 5}
+		lens = []int{0, 1, 2, 3, 5, 8, 16}
 	}
 	return lens[verifChoice("imageLen", len(lens))]
 }
@@ -645,12 +645,12 @@ type verifC21GzW struct {
 }
 
 type verifC21GzR struct {
-	r      io.Reader
-	multi  bool
-	state  int // 0: block header due, 1: data, 2: trailer due, 3: member done
-	left   int
-	size   int
-	err    error
+	r     io.Reader
+	multi bool
+	state int // 0: block header due, 1: data, 2: trailer due, 3: member done
+	left  int
+	size  int
+	err   error
 }
 
 var verifC21GzWs map[*gzip.Writer]*verifC21GzW
